@@ -3,7 +3,7 @@ from engine.qb import (AnalysisBroken, abstract_run, estr, unwrap, cval, walk, l
                        mentions_var, atoms_of, root_var, TOP)
 from rules.common import field_is, has_call, derives, value_sources
 
-UNITS = ['lib/ipcc.c', 'lib/ipcs.c', 'lib/ipc_shm.c', 'lib/ipc_socket.c']
+UNITS = ['lib/ipcc.c', 'lib/ipcs.c', 'lib/ipc_shm.c', 'lib/ipc_socket.c', 'lib/ringbuffer.c']
 DECIDES = ('Decides the gates in front of every transport send (size, flow control), the one-wake-up-byte-per-accepted-message '
            'pairing on both sides of the shared-memory transport, the deferred notification bookkeeping, peek/process/reclaim order, '
            'agreement of the two transports on the function slots, and the polled descriptor; end-to-end order and content rest on C01 '
@@ -16,8 +16,9 @@ RULES = {
     'R5': '_process_request_ (peek mode): msg_process precedes reclaim; reclaim exactly once after a processed request; error/disconnect edges reach neither',
     'R6': 'both transports fill every slot of qb_ipcs_funcs / qb_ipcc_funcs that is called without a NULL test; peek and reclaim are both set or both unset',
     'R7': 'qb_ipcc_fd_get returns the event socket for socket transport and the setup socket otherwise; the server writes notification bytes to c->setup only under needs_sock_for_poll',
+    'R8': 'a receive that is refused because the caller\'s buffer is too small changes nothing: the shm receive path (qb_rb_chunk_read) copies only after len >= chunk size, leaves the chunk, and gives the wait token it had taken back (= C07.R4) - otherwise the retry with a big enough buffer times out and every later response or event comes one late',
 }
-FLOORS = {'R1': 12, 'R2': 6, 'R3': 12, 'R4': 5, 'R5': 4, 'R6': 6, 'R7': 4}
+FLOORS = {'R1': 12, 'R2': 6, 'R3': 12, 'R4': 5, 'R5': 4, 'R6': 6, 'R7': 4, 'R8': 5}
 
 EMSGSIZE, EAGAIN = -90, -11
 
@@ -30,6 +31,13 @@ def run(ctx):
     r5(ctx)
     r6(ctx)
     r7(ctx)
+    # R8 = C07.R4: a receive into a buffer that is too small is an error without effect
+    from rules import c01, c07
+    sub = type(ctx)(ctx.prog, ctx.prop, ctx.tier, ctx.depth)
+    c07.r4(sub, c01._magic_consts(ctx.prog))
+    for r in sub.results:
+        r['rule'] = 'R8'
+        ctx.results.append(r)
 
 
 def _sends(f, rec):
